@@ -278,7 +278,7 @@ void explore() {
         else { enumerate<int, false>(false, cap, depth, st); enumerate<int, true>(false, cap, depth, st); }
     }
     shm->validated = st.transitions;
-    detail(fmt("breadth-first search to fixpoint: %llu states, %llu transitions (capacities 1..%d, both overwrite modes, initializer-list sizes 0..3); plus every history to depth %d for capacities 2 and 3 without deduplication: %llu more transitions",
+    sx::detail(fmt("breadth-first search to fixpoint: %llu states, %llu transitions (capacities 1..%d, both overwrite modes, initializer-list sizes 0..3); plus every history to depth %d for capacities 2 and 3 without deduplication: %llu more transitions",
                (unsigned long long)bfs_states, (unsigned long long)bfs_trans, maxcap, depth, (unsigned long long)(st.transitions - bfs_trans)));
 }
 
